@@ -98,6 +98,8 @@ type exec struct {
 	// map assignments recorded while an execute closure runs (A-FRESHKEY)
 	recording bool
 	recStores []mapStore
+	// cells captured by the current change pair's two closures only (not part of the compared state)
+	pairPrivate []string
 	frame    *frameInfo
 	fnName   string
 	fnPos    token.Pos
@@ -523,6 +525,8 @@ func (x *exec) enterLoop(fr *frame, li *loopInfo, sin *State) *State {
 	fr.vals = savedVals
 	// havoc
 	s := sin.clone()
+	mark := x.c.Mark()
+	var havocked []string
 	if havocAll {
 		// heap entries the body provably leaves alone although it makes calls that havoc the rest
 		// (C20: the history's own objects across calls of stored change closures)
@@ -547,6 +551,7 @@ func (x *exec) enterLoop(fr *frame, li *loopInfo, sin *State) *State {
 			names = append(names, n)
 		}
 		sort.Strings(names)
+		havocked = names
 		for _, n := range names {
 			s.heap[n] = x.c.FreshConst(n, x.h.sorts[n])
 			if n == "alive" {
@@ -613,6 +618,9 @@ func (x *exec) enterLoop(fr *frame, li *loopInfo, sin *State) *State {
 				x.assume(s, And(x.c.ICmp("<=", x.c.ILit(-1), v.T), x.c.ICmp("<=", v.T, x.c.ILit(1<<48))))
 			}
 		}
+	}
+	if x.dry == 0 && len(havocked) > 0 {
+		x.inferLoopFrame(fr, li, body, sin, s, havocked, mark)
 	}
 	for _, inv := range invs {
 		x.assume(s, x.evalBool(inv.E, x.loopEnv(fr, li, s)))
